@@ -113,6 +113,20 @@ CLAIMED["C08"] = dict(
     design="DESIGN.md section 3, C08",
 )
 
+CLAIMED["C09"] = dict(
+    category="other",
+    technique="static syntactic provenance over typed HIR (binding-precise derivation of table keys/payloads from syntax fields), derive facts on identity types, arm coverage of re-export resolution",
+    text=("Decides necessary conditions for module layout not to change bindings, on every path of the binder: import tables are "
+          "keyed by the local name and remember the imported name; export lists register under the exported name and look "
+          "locals up by the original name; `export {A as B} from` looks A up in the other module and registers B; every kind "
+          "of import that an export list can mention registers an export (this rule found the dropped default re-export, "
+          "repaired by a fix: commit); the identity types of named types derive Eq/Ord/Hash over all fields incl. the file; "
+          "the lossy file-name mangling has no collision check (1 known finding, reproduced)."),
+    note=("Trusted: rustc typed HIR and impl facts. Not decided: equality with the single-file result for all layouts "
+          "(relational over programs); the walkers' resolution order; .d.ts/.tsx handling."),
+    design="DESIGN.md section 3, C09",
+)
+
 NOT_APPLICABLE_REASON = {}
 
 
